@@ -238,7 +238,7 @@ func (s *t87State) regular(ra, rb, rc, q1, q2, q3 int) int {
 		px = s.maxval
 	}
 	k := 0
-	for (s.N[q] << uint(k)) < s.A[q] {
+	for k < 48 && (s.N[q]<<uint(k)) < s.A[q] { // k is bounded: a corrupt stream must not hang the reference
 		k++
 	}
 	m := s.golomb(k, s.limit)
@@ -307,7 +307,7 @@ func (s *t87State) interruption(ra, rb, ritype int) int {
 		temp += s.N[q] >> 1
 	}
 	k := 0
-	for (s.N[q] << uint(k)) < temp {
+	for k < 48 && (s.N[q]<<uint(k)) < temp {
 		k++
 	}
 	em := s.golomb(k, s.limit-t87J[s.runIndex]-1)
@@ -588,7 +588,7 @@ func (s *t87State) regular0(ra, rb, rc int) int {
 		px = s.maxval
 	}
 	k := 0
-	for (s.N[q] << uint(k)) < s.A[q] {
+	for k < 48 && (s.N[q]<<uint(k)) < s.A[q] { // k is bounded: a corrupt stream must not hang the reference
 		k++
 	}
 	m := s.golomb(k, s.limit)
